@@ -35,6 +35,8 @@ def check(model, R, tier):
     from sa import deriv
     deriv.check_deriv(model, R, 'C02', ['tanh', 'sigmoid', 'mse_loss'])
     check_bn_mode(model, R)
+    from sa import rules_hygiene as _H
+    _H.check_dim_tests(model, R, 'C02', scope='backward', modules=('synapgrad.cpu_ops', 'synapgrad.nn.functional'), floor=12)
     from sa.rules_defn import check_deriv_x
     check_deriv_x(model, R, 'C02')
     check_poolpair(model, R)
